@@ -61,6 +61,9 @@ func vlkGID() int {
 
 func vlkOp(id uintptr, op string, f func()) {
 	if !vlkOn {
+		if vSched != nil && (op == "Lock" || op == "RLock") {
+			vhoPoint(vlkGID())
+		}
 		f()
 		return
 	}
